@@ -158,6 +158,9 @@ func runJob(l *Loaded, job Job) (res JobResult) {
 	if job.TimeoutS > 0 {
 		ex.deadline = t0.Add(time.Duration(job.TimeoutS * float64(time.Second)))
 	}
+	if !runDeadline.IsZero() && (ex.deadline.IsZero() || runDeadline.Before(ex.deadline)) {
+		ex.deadline = runDeadline // budget of the whole run: what is left is reported as truncated
+	}
 	ex.maxPaths = job.MaxPaths
 	ex.crossSolver = job.Cross
 	ex.seed = job.Seed
@@ -264,8 +267,11 @@ func main() {
 	}
 }
 
+var runDeadline time.Time
+
 func cmdRun(args []string) {
 	fs := flag.NewFlagSet("run", flag.ExitOnError)
+	budget := fs.Float64("budget", 0, "time budget of the whole run in seconds (0: none); jobs still running or not yet started then end as truncated")
 	repo := fs.String("repo", "/repo", "repository root")
 	overlay := fs.String("overlay", "", "overlay JSON (go build -overlay format)")
 	jobsFile := fs.String("jobs", "", "jobs JSON")
@@ -291,6 +297,9 @@ func cmdRun(args []string) {
 	}
 	debug.SetGCPercent(*gcpct)
 	t0 := time.Now()
+	if *budget > 0 {
+		runDeadline = t0.Add(time.Duration(*budget * float64(time.Second)))
+	}
 	l, err := load(*repo, *overlay)
 	if err != nil {
 		fmt.Fprintln(os.Stderr, "load failed:", err)
